@@ -394,6 +394,7 @@ def denote(d):
                     c = dict(ctx)
                     c["cell"] = (ri, ci, hdr)
                     c["outer"] = ctx["outer"] or (ri, ci)       # the cell of the outermost table
+                    c["cellpath"] = ctx["cellpath"] + ((ri, ci),)
                     if isinstance(il, dict):
                         for bl in il["blocks"]:
                             block(bl, c)
@@ -406,7 +407,7 @@ def denote(d):
                 inl(line, c)
 
     base = dict(section=(), lists=(), cell=None, caption=False, styles=frozenset(), link=None, ext=None, ref=False, pre=False,
-                heading=False, dl=None, linkvis=None, outer=None)
+                heading=False, dl=None, linkvis=None, outer=None, cellpath=())
 
     def section(s, ctx):
         _, level, title, blocks, subs = s
@@ -488,6 +489,7 @@ def read_tree(root):
                             cc = dict(c)
                             cc["cell"] = (ri, ci, bool(getattr(cell, "is_header", False)))
                             cc["outer"] = c.get("outer") or (ri, ci)
+                            cc["cellpath"] = c.get("cellpath", ()) + ((ri, ci),)
                             for x in cell.children:
                                 walk(x, cc, None)
                         else:
@@ -537,7 +539,7 @@ def read_tree(root):
             walk(ch, c, table_state)
 
     base = dict(section=(), lists=(), cell=None, caption=False, styles=frozenset(), link=None, ext=None, ref=False, pre=False,
-                heading=False, dl=None, linkvis=None, outer=None)
+                heading=False, dl=None, linkvis=None, outer=None, cellpath=())
     walk(root, base, None)
     return out
 
